@@ -32,6 +32,7 @@ struct St {
     max_cases: usize,
     skipped_rewrite_nonminimal: usize,
     skipped_out_of_range: usize,
+    parity_skipped_resync: usize,
 }
 
 /// Decode a single frame with the streaming decoder, given its STREAMINFO (file reader with
@@ -85,7 +86,12 @@ fn check_frame(out: &mut Out, st: &mut St, src: &str, frame: &[u8], si: Option<&
             // parser rejects: the decoder must reject too
             match &dec_end {
                 End::Eof if !dec_samples.is_empty() || true => {
-                    if matches!(dec_end, End::Eof) {
+                    // a raw frame goes through FlacStreamReader, which on a rejected header scans on for
+                    // the next sync code and could (1 in 2^24 per candidate) find a checksum-valid frame
+                    // inside the bytes: the reader commits to offset 0 exactly when the header there parses
+                    let at_zero = si.is_some() || matches!(catch(|| FrameHeader::read_subset(&mut &frame[..])), Ok(Ok(_)));
+                    if matches!(dec_end, End::Eof) && !at_zero { st.parity_skipped_resync += 1; }
+                    if matches!(dec_end, End::Eof) && at_zero {
                         out.viol("parity-parser-rejects-decoder-accepts", &format!("structural parser rejects ({}) a frame the streaming decoder accepts ({} samples) [{}; {}]", e, dec_samples.len(), src, what), &input);
                     }
                 }
@@ -188,7 +194,7 @@ fn main() {
     let kinds = all_kinds();
     let known = probe_known();
     clear_panic_loc();
-    let mut st = St { frames: 0, accepted: 0, rejected_both: 0, by_src: Default::default(), struct_errs: Default::default(), cases: 0, cases_encoder: 0, max_cases: scale(if thorough { 2500 } else { 300 }), skipped_rewrite_nonminimal: 0, skipped_out_of_range: 0 };
+    let mut st = St { frames: 0, accepted: 0, rejected_both: 0, by_src: Default::default(), struct_errs: Default::default(), cases: 0, cases_encoder: 0, max_cases: scale(if thorough { 2500 } else { 300 }), skipped_rewrite_nonminimal: 0, skipped_out_of_range: 0, parity_skipped_resync: 0 };
 
     // ---- (1) the crate's own output over the C01 space
     let n1 = scale(if thorough { 15000 } else { 350 });
@@ -272,7 +278,7 @@ fn main() {
         "{}",
         obj(&[
             ("t", esc("stat")), ("profile", esc(profile())), ("frames", st.frames.to_string()), ("accepted_by_parser", st.accepted.to_string()), ("rejected_by_both", st.rejected_both.to_string()),
-            ("by_source", m(&st.by_src)), ("parser_errors", m(&st.struct_errs)), ("rewrite_skipped_nonminimal_or_padding", st.skipped_rewrite_nonminimal.to_string()), ("decorrelation_compare_skipped_out_of_range", st.skipped_out_of_range.to_string()),
+            ("by_source", m(&st.by_src)), ("parser_errors", m(&st.struct_errs)), ("rewrite_skipped_nonminimal_or_padding", st.skipped_rewrite_nonminimal.to_string()), ("decorrelation_compare_skipped_out_of_range", st.skipped_out_of_range.to_string()), ("parity_skipped_resync", st.parity_skipped_resync.to_string()),
             ("cases_emitted", out.cases.to_string()), ("viols", out.viols.to_string()), ("viol_keys", out.counts()),
         ])
     );
